@@ -87,7 +87,7 @@ def run_case(case, oracles=("conservation",), custom_share=0.35, force_special=F
     if rng.random() < custom_share:
         cfg = gen.make_custom_config(rng, force=force_special)
     else:
-        cfg = gen.make_fast_config(rng, allow_empty="columns" not in oracles)
+        cfg = gen.make_fast_config(rng, allow_empty="columns" not in oracles, shared_names=True)
     jds, inst = gen.make_jds(rng, cfg, nmax=case.get("nmax", 40), heavy=rng.random() < 0.2)
     if any(sum(jd) == 0 for jd in jds):
         res.count("zero_degree_cases")
@@ -96,6 +96,8 @@ def run_case(case, oracles=("conservation",), custom_share=0.35, force_special=F
     if cfg["flavour"] == "custom" and any(m[2] in ("generator", "iter") for m in cfg["motifs"]):
         res.count("oneshot_name_iterables")
     shapes = set()
+    if cfg["flavour"] != "custom" and len(set(map(repr, cfg["names"]))) < len(cfg["names"]):
+        res.count("configurations_in_which_two_topologies_share_an_edge_name")
     if cfg.get("decoy"):
         res.count("decoy_model_configured_first_cases")
     reuse = rng.random() < 0.6
@@ -113,7 +115,7 @@ def run_case(case, oracles=("conservation",), custom_share=0.35, force_special=F
     for n_s, sched in enumerate(SCHEDULES):
         if reuse and n_s == 2 and rng.random() < 0.5:
             # a SECOND generator object of the same class with another configuration is built (and used) while the first is still alive
-            cfg2 = gen.make_custom_config(rng, force=force_special) if cfg["flavour"] == "custom" else gen.make_fast_config(rng)
+            cfg2 = gen.make_custom_config(rng, force=force_special) if cfg["flavour"] == "custom" else gen.make_fast_config(rng, shared_names=True)
             if cfg2["flavour"] != "custom":
                 cfg2["flavour"] = cfg["flavour"]
             cfg2["path"] = cfg["path"]
